@@ -175,6 +175,42 @@ pub fn run(ctx: &Ctx) -> Report {
         let _ = BV::Int(0);
     }
 
+    // (b2) numeric extremes: string lengths and integers around 2^63 / 2^64 and with many digits
+    if ctx.want("extremes") && ctx.shard == 0 {
+        let two64: u128 = 1u128 << 64;
+        let mut cases: Vec<Vec<u8>> = vec![];
+        for k in 0..6u128 {
+            // a length that wraps to k in 64-bit arithmetic, followed by exactly k bytes (and more)
+            for tail in [k as usize, k as usize + 1, 0] {
+                let mut v = format!("{}:", two64 + k).into_bytes();
+                v.extend(std::iter::repeat(b'a').take(tail));
+                cases.push(v.clone());
+                let mut l = b"l".to_vec(); l.extend_from_slice(&v); l.push(b'e'); cases.push(l);
+                let mut d = b"d".to_vec(); d.extend_from_slice(&v); d.extend_from_slice(b"i1ee"); cases.push(d);
+            }
+        }
+        for n in [u64::MAX as u128, (u64::MAX as u128) - 1, 1u128 << 63, (1u128 << 63) - 1, 10u128.pow(19), 10u128.pow(20), 99999999999999999999u128, 340282366920938463463374607431768211455u128, 4294967296, 4294967297] {
+            cases.push(format!("{}:", n).into_bytes());
+            cases.push(format!("{}:a", n).into_bytes());
+            cases.push(format!("i{}e", n).into_bytes());
+            cases.push(format!("i-{}e", n).into_bytes());
+            cases.push(format!("li{}ee", n).into_bytes());
+        }
+        cases.push(b"i9223372036854775807e".to_vec());
+        cases.push(b"i9223372036854775808e".to_vec());
+        cases.push(b"i-9223372036854775808e".to_vec());
+        cases.push(b"i-9223372036854775809e".to_vec());
+        cases.push(format!("{}1:a", "0".repeat(40)).into_bytes());
+        cases.push(format!("i{}1e", "0".repeat(40)).into_bytes());
+        for c in cases {
+            rep.evaluations += 1;
+            rep.distinct(&c);
+            rep.count("numeric_extremes", 1);
+            let v = judge(&c);
+            record(&mut rep, &c, v, "numeric-extreme");
+        }
+    }
+
     // (c) deep nesting, in a child process (stack exhaustion aborts the process)
     if ctx.want("deep") && ctx.shard == 0 {
         for (ch, depth) in [(b'l', 1_000usize), (b'l', 100_000), (b'd', 100_000)] {
